@@ -177,9 +177,25 @@ def cause(ev):
     return t[:50]
 
 
+def is_ours(replay_path):
+    """True if a replay file was written by this extension (the C02 check hands such replays over to run_ext)"""
+    try:
+        return (json.load(open(replay_path)).get("signature") or {}).get("part") == "headerhashes"
+    except Exception:
+        return False
+
+
 def run_ext(ctx):
     q = ctx.quick()
     rnd = random.Random(ctx.seed * 7919 + 4)
+    if ctx.replay:
+        # re-execute the world of a recorded violation: tools/vcheck C02 --replay replays/C02-<seed>-<n>.json
+        if not is_ours(ctx.replay):
+            return
+        rp = json.load(open(ctx.replay))
+        w = dict(rp["detail"]["world"], wi=0, probe=1, cont_long=2)
+        ctx.tlc_mc("headerhashes", "HeaderHashesImpl.tla", "MC_trusted.cfg", timeout=600, workers=4)
+        return drive_and_judge(ctx, [w], q, selftests=False)
     pool = concurrent.futures.ThreadPoolExecutor(max_workers=6)
     # 1. exhaustive runs of the implementation-shaped model (started now, joined below: they run next to the Go driver)
     nw = 4 if q else 8
@@ -270,6 +286,28 @@ def run_ext(ctx):
         w["wi"] = i
         w["probe"] = 1
         w["cont_long"] = 5 if q else 2
+
+    def join():
+        for f in mc_futs:
+            f.result()
+        for f in dev_futs:
+            cfg, inv, err = f.result()
+            if not inv:
+                raise vlib.Inconclusive("named deviation %s not detected by the HeaderHashesImpl invariants (vacuous model): %s" % (cfg, err))
+            caught[cfg.replace("MC_", "").replace(".cfg", "")] = inv
+        ctx.extra.setdefault("deviations_caught", {}).update(caught)
+        ctx.extra["model_selftests"] = ctx.extra.get("model_selftests", 0) + len(caught)
+
+    try:
+        drive_and_judge(ctx, worlds, q, join=join)
+    finally:
+        pool.shutdown()
+    ctx.assumptions.append("headerhashes: crash points are the PutChangeSet / SeekGC commits of the backend (MemoryStore images replayed from the recorded "
+                           "batches, checked against the backend's content at the end of every world); the RAM shape (storedHeaderCount, len(latest)) is read "
+                           "with reflect and only compared at model level (drift)")
+
+
+def drive_and_judge(ctx, worlds, q, join=None, selftests=True):
     ind = os.path.join(ctx.work, "in-c02hh")
     os.makedirs(ind, exist_ok=True)
     json.dump({"n": CHAIN, "mtb": MTB, "worlds": worlds}, open(os.path.join(ind, "worlds.json"), "w"))
@@ -277,15 +315,8 @@ def run_ext(ctx):
     res = ctx.go_driver("c02hdrhashes", "TestDriver", env={"VERIF_IN": ind, "VERIF_WORKERS": 6 if q else 8}, timeout=900 if q else 5000)
     ctx.absorb(res)
     # join the model runs
-    for f in mc_futs:
-        f.result()
-    for f in dev_futs:
-        cfg, inv, err = f.result()
-        if not inv:
-            raise vlib.Inconclusive("named deviation %s not detected by the HeaderHashesImpl invariants (vacuous model): %s" % (cfg, err))
-        caught[cfg.replace("MC_", "").replace(".cfg", "")] = inv
-    ctx.extra.setdefault("deviations_caught", {}).update(caught)
-    ctx.extra["model_selftests"] = ctx.extra.get("model_selftests", 0) + len(caught)
+    if join:
+        join()
     # 5. TLC judges the recorded observations
     trace = os.path.join(res["_out"], "trace.ndjson")
     events = vlib.read_ndjson(trace)
@@ -337,13 +368,9 @@ def run_ext(ctx):
         ctx.samples.append({"headerhashes_crash_probe": {"world": e["world"], "kind": worlds[e["world"]]["kind"], "step": e["step"], "batch": e["batch"],
                                                          "hh": e["obs"]["hh"], "bh": e["obs"]["bh"], "segs": e["obs"]["segs"][:6],
                                                          "mem": e["obs"]["mem"], "pages": e["obs"]["pages"], "cont": {k: v for k, v in e["cont"].items() if k != "obs"}}})
-    # 6. binding self-test
-    if not any(not w.startswith("drift:") for f in fails for w in f["what"]):
-        selftest(ctx, events)
-    ctx.assumptions.append("headerhashes: crash points are the PutChangeSet / SeekGC commits of the backend (MemoryStore images replayed from the recorded "
-                           "batches, checked against the backend's content at the end of every world); the RAM shape (storedHeaderCount, len(latest)) is read "
-                           "with reflect and only compared at model level (drift)")
-    pool.shutdown()
+    # 6. binding self-test on the worlds the judge accepted
+    if selftests:
+        selftest(ctx, [e for e in events if e["world"] not in first])
 
 
 def selftest(ctx, events):
